@@ -86,6 +86,19 @@ def p_pair(x: fp.Real, t: tuple[fp.Real, list[fp.Real]]):
     return (ys, a)
 
 @fp.fpy
+def p_const(x: fp.Real, xs: list[fp.Real]):
+    return fp.const_pi() * x + fp.const_e() / xs[0] - fp.const_log2e() + fp.const_2_sqrt_pi()
+
+@fp.fpy
+def p_const2(x: fp.Real, xs: list[fp.Real]):
+    with fp.MPFixedContext(-3):
+        a = fp.const_pi()
+    b = fp.const_pi() + fp.const_ln2() * x
+    with fp.MPFixedContext(-12, fp.RM.RTZ):
+        c = fp.const_sqrt2() * a
+    return (a, b, c)
+
+@fp.fpy
 def p_capw(x: fp.Real, xs: list[fp.Real]):
     G[0] = G[0] + x
     return G[0]
@@ -335,7 +348,7 @@ def job_main(spec_path: str):
     tb, tbpath = load(TWIN_B, f'c18twb_{job["id"]}')
     traced = {ppath, tapath, tbpath}
     S = fp.strategies
-    funcs = {n: getattr(mod, n) for n in ('p_mut', 'p_ret', 'p_tup', 'p_trans', 'p_with', 'p_call', 'p_loop', 'p_own', 'p_nest', 'p_pair')}
+    funcs = {n: getattr(mod, n) for n in ('p_mut', 'p_ret', 'p_tup', 'p_trans', 'p_with', 'p_call', 'p_loop', 'p_own', 'p_nest', 'p_pair', 'p_const', 'p_const2')}
     if job.get('captured'):
         funcs.update({n: getattr(mod, n) for n in CAPTURED})
     funcs['twin@a'] = ta.twin
@@ -350,7 +363,8 @@ def job_main(spec_path: str):
             pass
     ctxs = {'fp64': fp.IEEEContext(11, 64), 'h.rne': fp.IEEEContext(5, 16), 'h.rtz': fp.IEEEContext(5, 16, fp.RM.RTZ),
             'mp10.rtp': fp.MPFloatContext(10, fp.RM.RTP), 'mp200.rtn': fp.MPFloatContext(200, fp.RM.RTN),
-            'fx8': fp.MPFixedContext(-8, fp.RM.RNA), 'mp3': fp.MPFloatContext(3)}
+            'fx8': fp.MPFixedContext(-8, fp.RM.RNA), 'mp3': fp.MPFloatContext(3), 'fx2': fp.MPFixedContext(-2), 'fx30': fp.MPFixedContext(-30, fp.RM.RTZ),
+            'fx60': fp.MPFixedContext(-60)}
 
     def mkargs(name, i):
         xs = [[1.0, 2.5], [0.5], [3.0, 0.25, 1.5], [2.0, 2.0]][i % 4]
@@ -365,7 +379,8 @@ def job_main(spec_path: str):
         if base == 'p_nest':
             return (x, [list(xs), [1.0]])
         if base == 'p_pair':
-            return (x, (2.0, list(xs)))
+            # (with i % 3 == 1 every leaf of the tuple is already an FPy value)
+            return (x, (fp.Float.from_float(2.0) if i % 3 == 1 else 2.0, list(xs)))
         return (x, list(xs))
 
     def key_of(fname, cname, ai):
@@ -561,9 +576,9 @@ def run(tier: str) -> int:
                     'calls_in_concurrent_phases': sum(1 for r in recs if r['th'] != 0),
                     'tlc_schedules_replayed': stats['stepped_phases'], 'schedules_abandoned_to_free_running': stats['unstepped_phases'],
                     'free_running_phases': stats['free_phases'], 'observable_points_stepped': stats['points'],
-                    'rule': 'per history (one pristine process): solo result of every call by fork, then sequential calls over 17 functions '
+                    'rule': 'per history (one pristine process): solo result of every call by fork, then sequential calls over 19 functions '
                             '(mutating / returning their list, nested containers, MPFR functions, own context, helpers, same-named twins, '
-                            'transformed copies, every third history also functions on a captured list) x 7 contexts, fresh interpreters, and two-thread phases stepped '
+                            'transformed copies, every third history also functions on a captured list) x 10 contexts, fresh interpreters, and two-thread phases stepped '
                             'through TLC-generated schedules of Runtime.tla at line granularity of eval / gmputils / compiled code'})
     for r in [r for r in recs if r['ev'] == 'call'][:: max(1, len(recs) // 3)][:3]:
         rep.sample({k: r[k] for k in ('name', 'key', 'th', 'hit', 'res', 'solo', 'same', 'shares')})
